@@ -2,6 +2,7 @@ SPECIFICATION Spec
 CONSTANTS
   Machine = "log"
   CrashPoints = TRUE
+  RollFaults = FALSE
   MaxCount = 3
   Limit = 4
   MaxWrite = 6
